@@ -29,6 +29,8 @@ deriving DecidableEq, Repr
 
 inductive Op
   | create                 -- ATTACH / CREATE SCHEMA / CREATE TABLE: error when the object exists
+  | replace                -- CREATE OR REPLACE TABLE: the table exists and is empty afterwards (its side-table comment stays
+                           -- until the statement's own comment upsert)
   | setInfo                -- info_schema.creation_sql + macros: `IF NOT EXISTS`, idempotent
   | insert (k v : Nat)     -- error when the table does not exist
   | readRows
@@ -46,6 +48,7 @@ deriving DecidableEq, Repr
 
 def Op.apply : Op → Val → Val × Res
   | .create, v => if v.ex then (v, .err) else ({ v with ex := true }, .ok)
+  | .replace, v => ({ v with ex := true, rows := [] }, .ok)
   | .setInfo, v => ({ v with info := true }, .ok)
   | .insert k x, v => if v.ex then ({ v with rows := v.rows ++ [(k, x)] }, .ok) else (v, .err)
   | .readRows, v => (v, if v.ex then .rows v.rows else .err)
@@ -178,6 +181,13 @@ def connectSpelled (lock : Option Nat) (cd cs : Bool) (d s : Name) : Stmt := con
 
 def createTable (t : Nat) (cmt : Option Nat) : Stmt :=
   [.call (.tbl t) .create] ++ (match cmt with | some c => [.call (.tbl t) (.setCmt c)] | none => [])
+
+/-- COMMENT ON TABLE / ALTER TABLE … SET COMMENT: one durable call (the side-table upsert) -/
+def commentStmt (t c : Nat) : Stmt := [.call (.tbl t) (.setCmt c)]
+/-- CREATE OR REPLACE TABLE … COMMENT = '…' -/
+def replaceTable (t c : Nat) : Stmt := [.call (.tbl t) .replace, .call (.tbl t) (.setCmt c)]
+/-- a statement that makes no engine call the model knows (SET variable, no-op'd statements) -/
+def nopStmt : Stmt := []
 
 def insertStmt (t k v : Nat) : Stmt := [.call (.tbl t) (.insert k v)]
 def selectStmt (t : Nat) : Stmt := [.call (.tbl t) .readRows]
